@@ -318,6 +318,12 @@ pub fn gen_random_dev_history(suite: &str, region: &str, rng: &mut Rng) -> Strin
                     let b = rng.bytes(nb);
                     script.push(h.frame_item(0, &b, None));
                 }
+                4 => {
+                    // builder X — an uplink-typed frame of this session (the echo of an uplink): Dir = 0 MIC under
+                    // the session key at the next fresh downlink counter; not a frame for an end-device
+                    let (b, f) = uplink_typed_frame(rng, h.devaddr, &h.nwk, &h.app, region, h.last_down);
+                    script.push(h.frame_item(rng.range(-20, 20) as i8, &b, Some(f)));
+                }
                 _ => script.push("O".to_string()),
             }
         }
@@ -517,6 +523,11 @@ pub fn gen_nb_random_history(suite: &str, region: &str, rng: &mut Rng) -> String
                 let nb = rng.below(30) as usize;
                 let b = rng.bytes(nb);
                 h.rx_bytes(0, &b);
+            }
+            7 if rng.chance(1, 2) => {
+                // builder X — an uplink-typed frame of this session (the echo of an uplink)
+                let (b, f) = uplink_typed_frame(rng, h.a.devaddr, &h.a.nwk, &h.a.app, region, h.a.last_down);
+                h.rx_bytes_hint(rng.range(-20, 20) as i8, &b, Some(f));
             }
             6 => {
                 if rng.chance(1, 2) {
@@ -1625,6 +1636,11 @@ pub fn gen_dev_listen(suite: &str, region: &str, rng: &mut Rng) -> String {
                     let nb = rng.below(40) as usize;
                     let b = rng.bytes(nb);
                     script.push(h.frame_item(0, &b, None));
+                }
+                6 if rng.chance(1, 2) => {
+                    // builder X — an uplink-typed frame of this session heard while listening
+                    let (b, f) = uplink_typed_frame(rng, h.devaddr, &h.nwk, &h.app, region, h.last_down);
+                    script.push(h.frame_item(rng.range(-20, 20) as i8, &b, Some(f)));
                 }
                 _ => script.push("O".into()),
             }
